@@ -5,6 +5,7 @@ moves the new entries to their position along EVERY taxa axis.  The permutation 
 `numpy.insert(numpy.arange(n), obj, numpy.arange(n, n + q))` of the patch.
 -/
 import PybropsModel.Lemmas.LabelMatGood
+import PybropsModel.Model.LabelMatRepair
 
 set_option autoImplicit false
 set_option linter.unusedVariables false
@@ -12,9 +13,6 @@ set_option linter.unusedVariables false
 namespace LabelMat
 
 variable {α lab : Type}
-
-/-- `numpy.insert(numpy.arange(n), p, numpy.arange(n, n + q))` -/
-def insertPerm (n q p : Nat) : List Nat := Np.insert p (List.range' n q) (List.range n)
 
 /-- gathering a run of consecutive indices = drop / take -/
 theorem filterMap_range' {β : Type} (L : List β) : ∀ (m a : Nat),
@@ -59,13 +57,5 @@ theorem take_insertPerm {β : Type} (l lv : List β) (p : Nat) (hp : p ≤ l.len
     · simp
   · rw [List.drop_append_of_le_length hp, List.take_append_of_le_length (by simp)]
     simp
-
-/-- the repaired `insert_taxa(p, block)` of a square class as a history of the (already correct) operations -/
-def squareInsertRepaired (k : Kind) (n q p : Nat) (v : Operand α lab) : List (Op α lab) :=
-  [.adjoin k v, .select k ((insertPerm n q p).map Int.ofNat)]
-
-/-- the repaired `incorp_taxa(p, block)` -/
-def squareIncorpRepaired (k : Kind) (n q p : Nat) (v : Operand α lab) : List (Op α lab) :=
-  [.append k v, .reorder k ((insertPerm n q p).map Int.ofNat)]
 
 end LabelMat
